@@ -136,13 +136,17 @@ NatText(n) == IF n < 10 THEN <<DigitSeq[n + 1]>> ELSE NatText(n \div 10) \o <<Di
 IntText(n) == IF n < 0 THEN <<"-">> \o NatText(0 - n) ELSE NatText(n)
 RECURSIVE Pad(_, _)
 Pad(t, w) == IF Len(t) >= w THEN t ELSE Pad(<<"0">> \o t, w)                                      \* "%0wd"
-RECURSIVE Find(_, _, _)
-Find(t, w, i) == IF i + Len(w) - 1 > Len(t) THEN 0 ELSE IF SubSeq(t, i, i + Len(w) - 1) = w THEN i ELSE Find(t, w, i + 1)
+\* first position >= i at which the word w occurs in t, 0 if none (no recursion: dumps are long texts)
+Find(t, w, i) == LET S == {p \in i..(Len(t) - Len(w) + 1) : SubSeq(t, p, p + Len(w) - 1) = w}
+                 IN IF S = {} THEN 0 ELSE CHOOSE p \in S : \A q \in S : p <= q
 
 \* --- what Python's int(text) and float(text) accept, and the number they return ---------------------
-\* (Python language reference "Integer literals"/"float()": optional surrounding whitespace, optional sign,
-\*  digits with single underscores between digits; float: digitpart [. [digitpart]] | . digitpart, optional
-\*  exponent; or inf / infinity / nan in any case.)
+\* (Python language reference "Integer literals" / float(): optional surrounding whitespace, optional sign,
+\*  digitpart = digits with single underscores between digits; float: digitpart [. [digitpart]] | . digitpart,
+\*  optional exponent (e|E) [sign] digitpart; or inf / infinity / nan in any case.)
+\* The grammar is stated twice: as regular expressions (PyIntRe, PyFloatRe: the readable form) and as direct
+\* predicates over the text (IsPyInt, IsPyFloat: what TLC evaluates fast); MC_Restricted checks that the two
+\* formulations agree on every candidate text (GrammarFormsAgree).
 DigitPart == Cat(<<Chr(Digits), Star(Cat(<<Opt(Chr({"_"})), Chr(Digits)>>))>>)
 Sign      == Opt(Chr({"+", "-"}))
 CI(w)     == Cat([i \in 1..Len(w) |-> Chr(w[i])])             \* case-insensitive word: sequence of 2-element sets
@@ -156,27 +160,42 @@ PyFloatRe == Cat(<<Star(Chr(WS)), Sign,
                                Opt(Cat(<<Chr({"e", "E"}), Sign, DigitPart>>))>>)>>),
                    Star(Chr(WS))>>)
 
+IsDigitPart(d) == /\ d # << >> /\ d[1] \in Digits /\ d[Len(d)] \in Digits
+                  /\ \A k \in 1..Len(d) : d[k] \in Digits \/ (d[k] = "_" /\ d[k - 1] # "_")     \* k > 1 here: d[1] is a digit
+Unsigned(u) == IF u # << >> /\ u[1] \in {"+", "-"} THEN Tail(u) ELSE u
+IsPyInt(t) == IsDigitPart(Unsigned(Strip(t)))
+LowerOf(c) == CASE c = "I" -> "i" [] c = "N" -> "n" [] c = "F" -> "f" [] c = "T" -> "t" [] c = "Y" -> "y" [] c = "A" -> "a" [] OTHER -> c
+Lower(t) == [k \in 1..Len(t) |-> LowerOf(t[k])]
+IsDecimalPart(m) ==                                        \* digitpart [. [digitpart]] | . digitpart
+  LET dot == IndexIn(m, {"."}, 1) IN
+  IF dot = 0 THEN IsDigitPart(m)
+  ELSE LET ip == SubSeq(m, 1, dot - 1)  fp == SubSeq(m, dot + 1, Len(m)) IN
+       (ip = << >> /\ IsDigitPart(fp)) \/ (IsDigitPart(ip) /\ (fp = << >> \/ IsDigitPart(fp)))
+IsPyFloat(t) ==
+  LET b == Unsigned(Strip(t)) IN
+  \/ Lower(b) \in {<<"i","n","f">>, <<"i","n","f","i","n","i","t","y">>, <<"n","a","n">>}
+  \/ LET ePos == IndexIn(b, {"e", "E"}, 1) IN
+     IF ePos = 0 THEN IsDecimalPart(b)
+     ELSE IsDecimalPart(SubSeq(b, 1, ePos - 1)) /\ IsDigitPart(Unsigned(SubSeq(b, ePos + 1, Len(b))))
+
 Signed(neg, num) == IF neg THEN [s |-> num.s, n |-> <<0 - num.n[1], num.n[2]>>] ELSE num
 \* int(text): NoNum when the text is not an integer literal (ValueError in Python)
 PyIntText(t) ==
-  IF ~FullMatch(PyIntRe, t) THEN NoNum
-  ELSE LET u   == Strip(t)
-           neg == u[1] = "-"
-           d   == Without(IF u[1] \in {"+", "-"} THEN Tail(u) ELSE u, {"_"})
-       IN Signed(neg, Fin(NatOf(d, 0), 1))
+  IF ~IsPyInt(t) THEN NoNum
+  ELSE LET u == Strip(t) IN Signed(u[1] = "-", Fin(NatOf(Without(Unsigned(u), {"_"}), 0), 1))
 \* float(text)
 PyFloatText(t) ==
-  IF ~FullMatch(PyFloatRe, t) THEN NoNum
+  IF ~IsPyFloat(t) THEN NoNum
   ELSE LET u    == Strip(t)
            neg  == u[1] = "-"
-           b    == Without(IF u[1] \in {"+", "-"} THEN Tail(u) ELSE u, {"_"})
+           b    == Without(Unsigned(u), {"_"})
        IN IF b[1] \in {"i", "I"} THEN (IF neg THEN NInf ELSE PInf)
           ELSE IF b[1] \in {"n", "N"} THEN NaN
           ELSE LET ePos == IndexIn(b, {"e", "E"}, 1)
                    mant == IF ePos = 0 THEN b ELSE SubSeq(b, 1, ePos - 1)
                    expt == IF ePos = 0 THEN << >> ELSE SubSeq(b, ePos + 1, Len(b))
                    eneg == expt # << >> /\ expt[1] = "-"
-                   ed   == IF expt # << >> /\ expt[1] \in {"+", "-"} THEN Tail(expt) ELSE expt
+                   ed   == Unsigned(expt)
                    e    == IF ed = << >> THEN 0 ELSE NatOf(ed, 0)
                    dot  == IndexIn(mant, {"."}, 1)
                    ip   == IF dot = 0 THEN mant ELSE SubSeq(mant, 1, dot - 1)
@@ -194,13 +213,16 @@ PyFloatText(t) ==
 (*          "int" "float" "bool" (v: the number)  "str" "bytes" (t: text)  *)
 (*          "none" "list" "dict" (anything else)                           *)
 (***************************************************************************)
-Val(k, v, t) == [k |-> k, v |-> v, t |-> t]
+\* A value also carries ni / nf: the numbers that int(x) / float(x) read from its TEXT (str, bytes), computed
+\* once by the grammars of part 2 when the value is built (NoNum for every other kind and for non-numeric text).
+Val(k, v, t) == [k |-> k, v |-> v, t |-> t, ni |-> NoNum, nf |-> NoNum]
 IntV(n)      == Val("int", Fin(n, 1), << >>)
 FloatV(n, d) == Val("float", Fin(n, d), << >>)
 FloatS(sp)   == Val("float", sp, << >>)
 BoolV(b)     == Val("bool", Fin(IF b THEN 1 ELSE 0, 1), << >>)
-StrV(t)      == Val("str", NoNum, t)
-BytesV(t)    == Val("bytes", NoNum, t)
+TextV(k, t)  == [k |-> k, v |-> NoNum, t |-> t, ni |-> PyIntText(t), nf |-> PyFloatText(t)]
+StrV(t)      == TextV("str", t)
+BytesV(t)    == TextV("bytes", t)
 Other(k)     == Val(k, NoNum, << >>)
 HugeInt      == Val("int", Huge, << >>)
 
@@ -211,7 +233,7 @@ NType(base, r, join) == [base |-> base, r |-> r, join |-> join]
 \* base type's own grammar; None and containers denote nothing)
 NumberOf(base, x) ==
   CASE x.k \in {"int", "float"} -> x.v
-    [] x.k \in {"str", "bytes"} -> IF base = "int" THEN PyIntText(x.t) ELSE PyFloatText(x.t)
+    [] x.k \in {"str", "bytes"} -> IF base = "int" THEN x.ni ELSE x.nf        \* PyIntText(x.t) / PyFloatText(x.t)
     [] OTHER -> NoNum
 \* ... and whether that number is a value of the base type (no loss: 2.5, inf, nan are not ints; an int
 \* beyond the float range is not a float)
@@ -242,12 +264,12 @@ AlgCast(base, x) ==
     CASE x.k \in {"int", "bool"} -> Ok(x.v)
       [] x.k = "float" -> IF x.v.s = "fin" THEN Ok(Fin(Trunc(x.v.n), 1))
                           ELSE IF x.v.s = "nan" THEN Raise("ValueError") ELSE Raise("OverflowError")
-      [] x.k \in {"str", "bytes"} -> IF PyIntText(x.t).s = "none" THEN Raise("ValueError") ELSE Ok(PyIntText(x.t))
+      [] x.k \in {"str", "bytes"} -> IF x.ni.s = "none" THEN Raise("ValueError") ELSE Ok(x.ni)      \* int(text): PyIntText
       [] OTHER -> Raise("TypeError")
   ELSE
     CASE x.k \in {"int", "bool"} -> IF x.v.s = "huge" THEN Raise("OverflowError") ELSE Ok(x.v)
       [] x.k = "float" -> Ok(x.v)
-      [] x.k \in {"str", "bytes"} -> IF PyFloatText(x.t).s = "none" THEN Raise("ValueError") ELSE Ok(PyFloatText(x.t))
+      [] x.k \in {"str", "bytes"} -> IF x.nf.s = "none" THEN Raise("ValueError") ELSE Ok(x.nf)      \* float(text): PyFloatText
       [] OTHER -> Raise("TypeError")
 
 FloatIsInteger(n) == n.s = "fin" /\ IsIntegral(n.n)                           \* float.is_integer: False for inf and nan
@@ -275,7 +297,7 @@ AlgCreates(T) ==
   ELSE IF T.join \notin {"or", "and"} THEN FALSE                                                 \* :127-128
   ELSE \A i \in 1..Len(T.r) : /\ T.r[i][1] \in CmpOps                                            \* :134 x[0] in _operators2
                               /\ T.r[i][2].s = "fin"
-                              /\ SameNum(T.r[i][2], AlgCast(T.base, Val(IF IsIntegral(T.r[i][2].n) THEN "int" ELSE "float", T.r[i][2], << >>)).v)   \* x[1] == base_type(x[1])
+                              /\ (T.base = "int" => SameNum(T.r[i][2], Fin(Trunc(T.r[i][2].n), 1)))    \* x[1] == base_type(x[1])
 
 (***************************************************************************)
 (* Part 4.  Restricted string types.  S = a regular expression (part 2).   *)
@@ -289,7 +311,7 @@ RefStrOutcome(re, x) == IF RefStrAccepts(re, x) THEN x ELSE Rejected
 AlgStrNew(re, x) ==
   IF x.k # "str" THEN Raise("TypeError")                       \* cls._regex.match(v): "expected string or bytes-like object" / "cannot use a string pattern on a bytes-like object"
   ELSE IF ~PrefixMatch(re, x.t) THEN Raise("ValueError")       \* :205-206
-  ELSE Ok(Val("str", NoNum, x.t))                              \* :94  str(v)
+  ELSE Ok(x)                                                   \* :94  str(v)
 \* a pattern that ends with $ : match and fullmatch agree up to one final newline
 Anchored(re) == re.k = "cat" /\ Len(re.a) >= 1 /\ re.a[Len(re.a)].k = "eol"
 
@@ -299,23 +321,26 @@ Anchored(re) == re.k = "cat" /\ Len(re.a) >= 1 /\ re.a[Len(re.a)].k = "eol"
 (*  "object"  parse_object({"x": x}) : the value of a config file          *)
 (*  "cli"     parse_args(["--x=" text])                                    *)
 (* gen = the type as a function  x |-> Ok(value) | Raise(class)  (AlgNew / *)
-(* AlgStrNew); ld = what load_value makes of the text (a fact about the    *)
-(* loader, supplied with the case): "text" (a scalar: the original text is *)
-(* kept, _loaders_dumpers.py:202-203), "none", "list", "dict".             *)
+(* AlgStrNew).  EVERY str value that reaches ActionTypeHint._check_type,   *)
+(* from the command line or from a config, is first given to load_value    *)
+(* (_typehints.py:563, _util.py:144-147); ld = what load_value does:       *)
+(*   "text"  a scalar or a loader error: the original text is kept         *)
+(*           (_loaders_dumpers.py:202-203, _typehints.py:564-565)          *)
+(*   "none" "list" "dict"   the loaded value replaces the text             *)
+(*   "crash" load_value raises TypeError / ValueError (part 6, LoaderCrash)*)
 (***************************************************************************)
 DeserExc == {"ValueError", "TypeError", "AttributeError"}        \* typing.py:298-302, deserializer_exceptions
 \* RegisteredType.deserializer typing.py:284-291 : the listed exceptions become ValueError, others escape
 AlgDeser(out) == IF out.r = "raise" /\ out.exc \in DeserExc THEN Raise("ValueError") ELSE out
 \* ActionTypeHint._check_type _typehints.py:559-610 with adapt_typehints' registered branch :799-805:
-\* first attempt on the loaded value; on ValueError, if the original is a str, second attempt on the text;
-\* (TypeError, ValueError) become the parser's error, anything else escapes as it is.
-AlgParse(NewOp(_), x, isText, ld) ==
-  LET first  == IF isText /\ ld # "text" THEN AlgDeser(NewOp(Other(ld))) ELSE AlgDeser(NewOp(x))
-      second == IF first.r = "raise" /\ first.exc = "ValueError" /\ x.k = "str" THEN AlgDeser(NewOp(x)) ELSE first
-  IN second
-\* Ref: a config value is accepted iff the type accepts it; a command-line text iff the type accepts that text
-\* (a text is a str; what the loader would make of it is not asked for a scalar type)
-RefParse(RefOp(_), x) == RefOp(x)
+\* load the text; first attempt on the loaded value; on ValueError, if the original is a str, second attempt on the
+\* text; (TypeError, ValueError) become the parser's error (:604-610), anything else escapes as it is.
+AlgParse(NewOp(_), x, ld) ==
+  IF x.k = "str" /\ ld = "crash" THEN Raise("ValueError")                                         \* :563 raises, :604 catches
+  ELSE LET first  == IF x.k = "str" /\ ld # "text" THEN AlgDeser(NewOp(Other(ld))) ELSE AlgDeser(NewOp(x))   \* :582
+           second == IF first.r = "raise" /\ first.exc = "ValueError" /\ x.k = "str" THEN AlgDeser(NewOp(x)) ELSE first   \* :583-597
+       IN second
+\* Ref: a value is accepted through a parser iff the type accepts it (a command-line text is a str)
 
 (***************************************************************************)
 (* Part 6.  Reading back what was written.                                 *)
@@ -388,6 +413,23 @@ ResolveFrom(rs, t, i) ==
 DumperTag(t) == ResolveFrom(StockResolvers, t, 1)       \* what safe_dump thinks a plain t would mean
 LoaderTag(t) == ResolveFrom(LoaderResolvers, t, 1)      \* what jsonargparse's loader makes of a plain t
 
+\* ---- texts on which load_value raises instead of returning (named deviation "loader-crash") ----
+\* (a) yaml_load, _loaders_dumpers.py:86-97: a text that YAML reads as a one-key mapping with a null value ("key:" or
+\*     "{key}") is meant to be kept as a string, but `stream.strip() == key + ":"` raises TypeError when the key was
+\*     resolved to a bool / int / float / null
+\* (b) PyYAML's constructors fail on a scalar that the resolver patterns accept but that has no digit:
+\*     float("." ) for "._" (loader pattern :72), int("", 2|16) for "0b_" / "0x_"
+NonStrKey(key) == LoaderTag(key) \in {"bool", "int", "float", "null"}
+HasChar(t, c) == \E p \in 1..Len(t) : t[p] = c
+FloatCtorCrash(u) == /\ LoaderTag(u) = "float" /\ ~HasChar(u, ":") /\ ~FullMatch(Alt(<<InfAlt, NanAlt>>), u)
+                     /\ ~IsPyFloat(Without(u, {"_"}))
+IntCtorCrash(u) == FullMatch(Cat(<<PM, Chr({"0"}), Chr({"b", "x"}), Plus(Chr({"_"}))>>), u)
+KeyColonCrash(u) == Len(u) >= 2 /\ u[Len(u)] = ":" /\ NonStrKey(SubSeq(u, 1, Len(u) - 1))
+FlowKeyCrash(u) == Len(u) >= 3 /\ u[1] = "{" /\ u[Len(u)] = "}" /\ NonStrKey(SubSeq(u, 2, Len(u) - 1))
+LoaderCrash(t) == LET u == Strip(t) IN
+                  u # << >> /\ (FloatCtorCrash(u) \/ IntCtorCrash(u) \/ KeyColonCrash(u) \/ FlowKeyCrash(u)
+                                \/ (Len(u) >= 2 /\ u[Len(u)] = ":" /\ (FloatCtorCrash(SubSeq(u, 1, Len(u) - 1)) \/ IntCtorCrash(SubSeq(u, 1, Len(u) - 1)))))
+
 Str(t) == [k |-> "str", t |-> t, n |-> NoNum]
 Flt(n) == [k |-> "float", t |-> << >>, n |-> n]
 Misread(tag) == [k |-> "misread", t |-> <<tag>>, n |-> NoNum]
@@ -442,21 +484,22 @@ IntLit == Cat(<<Opt(Chr({"-"})), Plus(D09)>>)                                   
 IntOf(t) == IF t[1] = "-" THEN 0 - NatOf(Tail(t), 0) ELSE NatOf(t, 0)
 RECURSIVE SplitOn(_, _)
 SplitOn(t, c) == LET i == IndexIn(t, {c}, 1) IN IF i = 0 THEN <<t>> ELSE <<SubSeq(t, 1, i - 1)>> \o SplitOn(SubSeq(t, i + 1, Len(t)), c)
-NoVal == <<"?">>
+Fail   == [ok |-> FALSE, f |-> << >>]            \* the deserializer raised
+Got(f) == [ok |-> TRUE, f |-> f]
 RangeDeser(t0) ==
   LET t == Strip(t0) IN                                                                         \* :451
-  IF ~(StartsWith(t, <<"r","a","n","g","e","(">>) /\ EndsWith(t, <<")">>)) THEN NoVal            \* :452
+  IF ~(StartsWith(t, <<"r","a","n","g","e","(">>) /\ EndsWith(t, <<")">>)) THEN Fail             \* :452
   ELSE LET body  == Without(SubSeq(t, 7, Len(t) - 1), {" "})                                     \* :453
            parts == SplitOn(body, ",")
        IN IF Len(parts) \in 1..3 /\ \A i \in 1..Len(parts) : FullMatch(IntLit, parts[i])        \* :445-447 the three patterns
-          THEN (IF Len(parts) = 1 THEN <<0, IntOf(parts[1]), 1>>                                 \* :454-456
-                ELSE IF Len(parts) = 2 THEN <<IntOf(parts[1]), IntOf(parts[2]), 1>>              \* :457-459
-                ELSE <<IntOf(parts[1]), IntOf(parts[2]), IntOf(parts[3])>>)                      \* :460-462  (range() itself rejects step 0)
-          ELSE NoVal                                                                             \* :463
+          THEN (IF Len(parts) = 1 THEN Got(<<0, IntOf(parts[1]), 1>>)                              \* :454-456
+                ELSE IF Len(parts) = 2 THEN Got(<<IntOf(parts[1]), IntOf(parts[2]), 1>>)           \* :457-459
+                ELSE Got(<<IntOf(parts[1]), IntOf(parts[2]), IntOf(parts[3])>>))                   \* :460-462  (range() itself rejects step 0)
+          ELSE Fail                                                                              \* :463
 \* equality of ranges in Python: equal as sequences
 RangeLen(f) == IF f[3] > 0 THEN (IF f[1] < f[2] THEN ((f[2] - f[1] - 1) \div f[3]) + 1 ELSE 0)
                ELSE (IF f[1] > f[2] THEN ((f[1] - f[2] - 1) \div (0 - f[3])) + 1 ELSE 0)
-RangeEq(f, g) == f # NoVal /\ g # NoVal /\ RangeLen(f) = RangeLen(g)
+RangeEq(f, g) == RangeLen(f) = RangeLen(g)
                  /\ (RangeLen(f) = 0 \/ (f[1] = g[1] /\ (RangeLen(f) = 1 \/ f[3] = g[3])))
 
 \* str(timedelta) (CPython datetime.timedelta.__str__): "[D day[s], ]H:MM:SS[.ffffff]"
@@ -472,7 +515,7 @@ TdDays  == Cat(<<Plus(Chr(Digits \cup {"-"})), Word(<<" ","d","a","y">>), Star(C
 TdDeser(t) ==
   LET hasDay == Find(t, <<"d","a","y">>, 1) # 0                                                  \* :401
       pat    == IF hasDay THEN Cat(<<TdDays, TdClock>>) ELSE TdClock
-  IN IF ~PrefixMatch(pat, t) THEN NoVal                                                          \* :403-405
+  IN IF ~PrefixMatch(pat, t) THEN Fail                                                           \* :403-405
      ELSE LET sp    == IF hasDay THEN IndexIn(t, {" "}, 1) ELSE 0
               dtxt  == IF hasDay THEN SubSeq(t, 1, sp - 1) ELSE <<"0">>
               rest  == IF hasDay THEN SubSeq(t, Find(t, <<",", " ">>, 1) + 2, Len(t)) ELSE t
@@ -481,11 +524,11 @@ TdDeser(t) ==
               dot   == IndexIn(stxt, {"."}, 1)
               whole == IF dot = 0 THEN stxt ELSE SubSeq(stxt, 1, dot - 1)
               frac  == IF dot = 0 THEN << >> ELSE SubSeq(stxt, dot + 1, Len(stxt))
-          IN IF ~FullMatch(IntLit, dtxt) \/ ~FullMatch(Star(D09), frac) \/ Len(frac) > 6 THEN NoVal   \* float(val) would fail / outside the model
+          IN IF ~FullMatch(IntLit, dtxt) \/ ~FullMatch(Star(D09), frac) \/ Len(frac) > 6 THEN Fail    \* float(val) would fail / outside the model
              ELSE LET days == IntOf(dtxt)
                       secs == NatOf(p[1], 0) * 3600 + NatOf(p[2], 0) * 60 + NatOf(whole, 0)
                       us   == IF frac = << >> THEN 0 ELSE NatOf(frac, 0) * Pow(10, 6 - Len(frac))
-                  IN <<days + (secs \div 86400), secs % 86400, us>>                              \* :409 timedelta(**kwargs) normalises
+                  IN Got(<<days + (secs \div 86400), secs % 86400, us>>)                            \* :409 timedelta(**kwargs) normalises
 
 \* base64 (RFC 4648 standard alphabet), typing.py:415-430
 B64Alphabet == <<"A","B","C","D","E","F","G","H","I","J","K","L","M","N","O","P","Q","R","S","T","U","V","W","X","Y","Z",
@@ -511,7 +554,7 @@ B64DecGroups(t) ==
 B64Canonical == Cat(<<Star(Cat(<<Chr(B64Chars), Chr(B64Chars), Chr(B64Chars), Chr(B64Chars)>>)),
                       Opt(Alt(<<Cat(<<Chr(B64Chars), Chr(B64Chars), Word(<<"=", "=">>)>>),
                                 Cat(<<Chr(B64Chars), Chr(B64Chars), Chr(B64Chars), Chr({"="})>>)>>))>>)
-B64Dec(t) == IF FullMatch(B64Canonical, t) THEN B64DecGroups(t) ELSE NoVal      \* the model covers well-formed padded text only
+B64Dec(t) == IF FullMatch(B64Canonical, t) THEN Got(B64DecGroups(t)) ELSE Fail     \* the model covers well-formed padded text only
 
 \* Decimal -> float (typing.py:387): a finite decimal is a double exactly iff its reduced denominator is a power of
 \* two (and it is within range / precision: the coefficient of the model is far below 2^53)
@@ -535,35 +578,52 @@ Ser(v) ==
 \* Deser of what was read, compared with v
 DeserBack(v, back) ==
   IF back.k = "misread" THEN (IF v.ty = "complex" THEN "other" ELSE "reject")    \* a float where a str is expected: only complex(float) works
-  ELSE CASE v.ty = "range"     -> IF RangeDeser(back.t) = NoVal THEN "reject" ELSE IF RangeEq(RangeDeser(back.t), v.f) THEN "eq" ELSE "other"
-         [] v.ty = "timedelta" -> IF TdDeser(back.t) = NoVal THEN "reject" ELSE IF TdDeser(back.t) = v.f THEN "eq" ELSE "other"
-         [] v.ty \in {"bytes", "bytearray"} -> IF B64Dec(back.t) = NoVal THEN "reject" ELSE IF B64Dec(back.t) = v.f THEN "eq" ELSE "other"
+  ELSE CASE v.ty = "range"     -> LET d == RangeDeser(back.t) IN IF ~d.ok THEN "reject" ELSE IF RangeEq(d.f, v.f) THEN "eq" ELSE "other"
+         [] v.ty = "timedelta" -> LET d == TdDeser(back.t) IN IF ~d.ok THEN "reject" ELSE IF d.f = v.f THEN "eq" ELSE "other"
+         [] v.ty \in {"bytes", "bytearray"} -> LET d == B64Dec(back.t) IN IF ~d.ok THEN "reject" ELSE IF d.f = v.f THEN "eq" ELSE "other"
          [] v.ty = "Decimal"   -> "eq"                                             \* refined below
          [] OTHER              -> IF back.t = v.f THEN "eq" ELSE "other"           \* constructor = inverse of str (trusted)
 \* Ref: the obligation of the property, for every channel
 RefRoundTrip(v, chan) == "eq"
-\* Alg: what the transcription predicts.  digits15: the decimal has at most 15 significant digits (then the
-\* shortest repr of its double is the decimal itself, so the command line gives it back)
-AlgRoundTrip(v, chan, digits15) ==
-  IF v.ty = "Decimal" THEN
-       (IF chan = "cli" THEN (IF digits15 THEN "eq" ELSE "via-float")
-        ELSE IF DecExact(v.f) THEN "eq" ELSE "via-float")
-  ELSE DeserBack(v, AlgReadBack(chan, Ser(v)))
-\* the named deviations (tools/findings.d/C20.json)
-Deviation(v, chan, digits15) ==
-  IF AlgRoundTrip(v, chan, digits15) = "eq" THEN "none"
-  ELSE IF v.ty = "Decimal" THEN "float-serializer"
-  ELSE IF Ser(v).k = "str" /\ chan = "yaml" /\ YamlPlainMisread(Ser(v).t) THEN "yaml-str-as-float"
-  ELSE "model"
+\* Alg: everything the transcription predicts about one value, computed once.  dcls: the number of significant digits
+\* of a decimal: "le15" (the shortest repr of its double is the decimal itself: the command line gives it back),
+\* "gt17" (repr has at most 17 digits: it cannot), "mid" (16-17 digits: either, outcome class "eq|via-float")
+\*   rep      the representation Ser(v)
+\*   mis      a str representation that safe_dump writes plain and the loader resolves to another tag
+\*   alg      outcome class per channel <<yaml, json, cli>>
+\*   dev      the named deviation per channel, by its CAUSE (not by its outcome)  (tools/findings.d/C20.json):
+\*     "float-serializer"   a Decimal that is not a double (file), or whose repr as a double is not the decimal (cli)
+\*     "yaml-str-as-float"  the representation is misread from a YAML file
+\*     "loader-crash"       load_value raises on the representation (every channel)
+RegFacts(v, dcls) ==
+  LET rep   == Ser(v)
+      crash == rep.k = "str" /\ LoaderCrash(rep.t)                  \* every channel hands the str to load_value again (part 5)
+      mis   == rep.k = "str" /\ YamlPlainMisread(rep.t)
+      plain == IF crash THEN "reject" ELSE DeserBack(v, rep)        \* json: always quoted; cli: the text of a scalar is kept
+      yaml  == IF crash THEN "reject" ELSE IF mis THEN DeserBack(v, AlgReadBack("yaml", rep)) ELSE plain
+      decf  == IF DecExact(v.f) THEN "eq" ELSE "via-float"
+      decc  == CASE dcls = "le15" -> "eq" [] dcls = "gt17" -> "via-float" [] OTHER -> "eq|via-float"
+  IN IF v.ty = "Decimal"
+     THEN [rep |-> rep, mis |-> FALSE, crash |-> FALSE, alg |-> <<decf, decf, decc>>,
+           dev |-> <<IF DecExact(v.f) THEN "none" ELSE "float-serializer", IF DecExact(v.f) THEN "none" ELSE "float-serializer",
+                     IF dcls = "le15" THEN "none" ELSE "float-serializer">>]
+     ELSE [rep |-> rep, mis |-> mis, crash |-> crash, alg |-> <<yaml, plain, plain>>,
+           dev |-> IF crash THEN <<"loader-crash", "loader-crash", "loader-crash">>
+                   ELSE <<IF mis THEN "yaml-str-as-float" ELSE "none", "none", "none">>]
+ChanIdx(chan) == CASE chan = "yaml" -> 1 [] chan = "json" -> 2 [] chan = "cli" -> 3
+AlgRoundTrip(v, chan, dcls) == RegFacts(v, dcls).alg[ChanIdx(chan)]
+NamedDeviation(v, chan, dcls) == RegFacts(v, dcls).dev[ChanIdx(chan)]
+AlgAllows(predicted, observed) == observed = predicted \/ (predicted = "eq|via-float" /\ observed \in {"eq", "via-float"})
 
 \* SecretStr: the serializer is constant, so no dump that goes through it can contain the secret.
 \* Contexts a value can sit in when a configuration is dumped (adapt_typehints, serialize=True):
 \*   "bare" T   "optional" Optional[T]   "list" List[T]   "dict" Dict[str,T]   "tuple" Tuple[T,int]
 \*   "union" Union[int,T]   "dataclass" a field of a dataclass   "default" only the default, never given
 SecretContexts == {"bare", "optional", "list", "dict", "tuple", "union", "dataclass", "default"}
-RECURSIVE Occurs(_, _)
-Occurs(w, t) == w # << >> /\ Find(t, w, 1) # 0
+Occurs(w, t) == w # << >> /\ \E p \in 1..(Len(t) - Len(w) + 1) : SubSeq(t, p, p + Len(w) - 1) = w
 \* Alg: every context reaches the registered branch (_typehints.py:800-803) for the SecretStr leaf
 AlgDumpedLeaf(ctx, secret) == Ser(RV("SecretStr", secret)).t
-RefNoLeak(secret, dumped) == ~Occurs(secret, dumped)
+\* Ref: the secret does not occur in the dump -- unless it also occurs in the dump of the same configuration holding a
+\* DIFFERENT secret (then it is part of the scaffolding: a key, a comment, the mask itself)
+RefNoLeak(secret, dumped, scaffold) == ~Occurs(secret, dumped) \/ Occurs(secret, scaffold)
 =============================================================================
